@@ -55,7 +55,8 @@ EXPECT_PROBES = ["announced", "lost_announced", "lost_half_open",
                  "glued_to_handshake_end", "nexus_up_listener_raised",
                  "nexus_down_listener_halted", "hub_epoll",
                  "nexus_option_clear_flows_on_connect",
-                 "shutdown_with_several_datapaths", "second_nexus"]
+                 "shutdown_with_several_datapaths", "second_nexus",
+                 "connection_rejected_in_up_handler"]
 
 DPIDS = [0x11, 0x2200000022]
 # the two datapath ids of a run are drawn from here (cfg["dpids"]); 0 and
@@ -89,6 +90,11 @@ def gen_plan(seed, tier):
   # listener (decided from the dpid the features reply announced)
   r2n = Rng(mix(seed, "nexus2"))
   cfg["second_nexus"] = r2n.pick([0, 1]) if r2n.chance(0.2) else None
+  # some component refuses the n-th switch that comes up: its ConnectionUp
+  # handler disconnects the new connection there and then
+  rrj = Rng(mix(seed, "reject"))
+  cfg["reject_up"] = (rrj.pick([1, 1, 2]) if cfg["second_nexus"] is None
+                      and rrj.chance(0.2) else None)
   r5 = Rng(mix(seed, "nexus"))
   cfg["nexus"] = {}
   if r5.chance(0.3):
@@ -231,6 +237,29 @@ def _drive(sim, plan, known, hit):
     world.nexus.addListenerByName("ConnectionUp", broken, priority=-2000)
   if second is not None:
     world.add_second_nexus([sim.dpids[second]])
+  inv_viol = []
+  sim.inv_viol = inv_viol
+
+  def registry_invariant(event):
+    # at every event: nothing reachable through the registry is a
+    # connection the controller itself has already given up
+    for d in world.nexus.connections.dpids:
+      c = world.nexus.connections[d]
+      if c.disconnected and not inv_viol:
+        inv_viol.append("while %s was being raised the registry mapped dpid "
+                        "%#x to connection %s, which is disconnected"
+                        % (type(event).__name__, d, c.ID))
+  for name in ("PortStatus", "PacketIn", "ConnectionDown", "BarrierIn",
+               "ErrorIn", "FeaturesReceived"):
+    world.nexus.addListenerByName(name, registry_invariant, priority=-1200)
+  ups_seen = [0]
+  if cfg.get("reject_up"):
+    def rejecting(event):
+      ups_seen[0] += 1
+      if ups_seen[0] == cfg["reject_up"]:
+        sim.probes["connection_rejected_in_up_handler"] += 1
+        event.connection.disconnect()
+    world.nexus.addListenerByName("ConnectionUp", rejecting, priority=-1500)
   how = cfg.get("down_listener_halts")
   if how:
     # the last ConnectionDown listener on the nexus halts the event (a legal
@@ -336,6 +365,10 @@ def _drive(sim, plan, known, hit):
       ann_counter[0] += 1
       m.ann_seq = ann_counter[0]
       sim.probes["announced"] += 1
+      if cfg.get("reject_up") == ann_counter[0]:
+        # (refused by a ConnectionUp handler: announced, and lost at once)
+        m.live = False
+        sim.probes["lost_announced"] += 1
       force = True
     elif op == "desc_reply":
       peer.send(W.enc_stats_reply(nx(), W.ST_DESC, W.enc_desc_stats()))
@@ -409,6 +442,8 @@ def _drive(sim, plan, known, hit):
 
 
 def _check(sim, world, peers, known, hit, final=False):
+  if getattr(sim, "inv_viol", None):
+    raise Violation("registry/dead-connection", sim.inv_viol[0])
   ev = world.events
   for p, (peer, m) in peers.items():
     cid = peer.con_id
